@@ -3,14 +3,16 @@
 then undo the change. usage: seeded_eval.py [ids...]   writes seeded/RESULTS.json"""
 import json, os, subprocess, sys, time, glob
 VERIF = os.path.dirname(os.path.dirname(os.path.abspath(__file__)))
+# RKSIM_REPO: evaluate on a scratch worktree of /repo (same commit) so /repo stays free for other work
+REPO = os.environ.get("RKSIM_REPO", "/repo")
 ids = sys.argv[1:] or sorted(os.path.basename(d) for d in glob.glob(os.path.join(VERIF, "seeded", "C*-*")))
 resf = os.path.join(VERIF, "seeded", "RESULTS.json")
 results = json.load(open(resf)) if os.path.exists(resf) else {}
-assert subprocess.run(["git", "-C", "/repo", "status", "--porcelain", "--untracked-files=no"], stdout=subprocess.PIPE, text=True).stdout.strip() == "", "repo not clean"
+assert subprocess.run(["git", "-C", REPO, "status", "--porcelain", "--untracked-files=no"], stdout=subprocess.PIPE, text=True).stdout.strip() == "", "repo not clean"
 for sid in ids:
     prop = sid.split("-")[0]
     patch = os.path.join(VERIF, "seeded", sid, "patch.diff")
-    r = subprocess.run(["git", "-C", "/repo", "apply", patch])
+    r = subprocess.run(["git", "-C", REPO, "apply", patch])
     if r.returncode != 0:
         results[sid] = {"error": "patch does not apply"}
         continue
@@ -19,7 +21,7 @@ for sid in ids:
         r = subprocess.run(["python3", os.path.join(VERIF, "tools", "check.py"), prop, "--tier", os.environ.get("SEED_TIER", "quick")],
                            stdout=subprocess.PIPE, stderr=subprocess.STDOUT, text=True, cwd=VERIF)
     finally:
-        subprocess.run(["git", "-C", "/repo", "checkout", "--", "."])
+        subprocess.run(["git", "-C", REPO, "checkout", "--", "."])
     lines = r.stdout.splitlines()
     sigs = [l.strip() for l in lines if l.strip().startswith("signature=")]
     results[sid] = {"property": prop, "exit": r.returncode, "wall_s": round(time.time() - t0, 1),
